@@ -88,71 +88,174 @@ def _r1(ctx):
         d = param_default(bh, name)
         ctx.decide(d is not None and const(d) == want, "C14-R1", bh, HB, "baker_hubbard", "default %s = %s" % (name, want), "",
                    "default of %s is %s (documented: %s)" % (name, src(d) if d is not None else None, want))
-    # units and operators in baker_hubbard
-    cfg = CFG(bh)
-    defs = Defs(cfg)
-    cmps = [(n, c) for n in cfg.nodes() for e in cfg.own_exprs(n) for c in ast.walk(e) if isinstance(c, ast.Compare)]
-    seen = set()
-    for (n, c) in cmps:
-        l, r = c.left, c.comparators[0]
-        s = src(c)
-        if "angles" in s:
-            ul = _unit(l, n, defs, {"angle_cutoff"})
-            ur = _unit(r, n, defs, {"angle_cutoff"})
-            # `angles` comes out of arccos in _compute_bounded_geometry (radians)
-            ul = RAD if dotted(l) == "angles" else ul
-            ok_units = (ul == RAD and ur == RAD)
-            ctx.decide(ok_units, "C14-R1", c, HB, "baker_hubbard", "`%s` compares radians with radians" % s, "",
-                       "`%s` compares an angle in radians with a cutoff in %s: the angle criterion is %s" % (s, {"deg": "degrees"}.get(ur, ur), "never met" if ur == DEG else "wrong"))
-            ctx.decide(isinstance(c.ops[0], ast.Gt), "C14-R1", c, HB, "baker_hubbard", "angle criterion is `>`", "", "the D-H...A angle must exceed the cutoff; found `%s`" % s)
-            seen.add("angle")
-        elif "distances" in s:
-            ctx.decide(isinstance(c.ops[0], ast.Lt) and dotted(r) == "distance_cutoff", "C14-R1", c, HB, "baker_hubbard", "distance criterion `distances < distance_cutoff`", "",
-                       "distance criterion is `%s`" % s)
-            seen.add("dist")
-        elif "freq" in s:
-            ctx.decide(isinstance(c.ops[0], ast.Gt) and "np.mean(presence, axis=0)" in s, "C14-R1", c, HB, "baker_hubbard", "frequency criterion mean(presence) > freq", "",
-                       "frequency criterion is `%s` (documented: present in more than freq of the frames)" % s)
-            seen.add("freq")
-    for k in ("angle", "dist", "freq"):
-        if k not in seen:
-            ctx.violated("C14-R1", bh, HB, "baker_hubbard", "%s criterion" % k, "the %s criterion is no longer applied" % k)
-    pres = [n for n in walk_no_nested(bh) if isinstance(n, ast.Assign) and dotted(n.targets[0]) == "presence"]
-    ok = bool(pres) and isinstance(pres[0].value, ast.Call) and call_name(pres[0].value) == "np.logical_and"
-    ctx.decide(ok, "C14-R1", pres[0] if pres else bh, HB, "baker_hubbard", "distance AND angle", "", "the two geometric criteria are not combined with a logical and")
-    # index tables
-    for fn, q, dwant, vwant, what in ((bh, "baker_hubbard", {1, 2}, 1, "r(H...A), angle at H"), (wn, "wernet_nilsson", {0, 2}, 0, "r(D...A), angle at D")):
-        call = [n for n in walk_no_nested(fn) if isinstance(n, ast.Call) and call_name(n) == "_compute_bounded_geometry"]
-        if not call:
-            ctx.undecided("C14-R1", fn, HB, q, "geometry call", "not found")
+    _r1_by_evaluation(ctx)
+
+
+def _r1_by_evaluation(ctx):
+    """baker_hubbard and wernet_nilsson (with _compute_bounded_geometry in scope) evaluated (sa/tensym.py) on a designed world of triplets over
+    two frames whose three pair distances are exact rationals forming angles of 0 / 60 / 90 / 120 / 180 degrees, so that arccos is exact
+    (a multiple of pi).  The world sits *on* the thresholds: a distance equal to the cutoff, an angle equal to the cutoff, a bond present in
+    exactly freq of the frames, a cone cutoff met with equality.  The triplets returned are compared with the documented criteria applied to
+    the world by the rule itself."""
+    from fractions import Fraction as Fr
+    from ..tensym import TenSym, Ten, Obj
+    from ..pysym import Unsupported as PUnsupported, PI
+    from ..poly import Poly, Rat
+    mod = ctx.py.mod(HB)
+    bh, wn, cg = ctx.py.func(HB, "baker_hubbard"), ctx.py.func(HB, "wernet_nilsson"), ctx.py.func(HB, "_compute_bounded_geometry")
+    funcs = {q: f for q, f in mod.functions.items() if "." not in q and q not in ("baker_hubbard", "wernet_nilsson", "_get_bond_triplets", "kabsch_sander")}
+    F_ = 2
+    rat = lambda x: Rat(Poly.const(Fr(x)))        # noqa: E731
+    ACOS = {Fr(-1): Fr(1), Fr(-1, 2): Fr(2, 3), Fr(0): Fr(1, 2), Fr(1, 2): Fr(1, 3), Fr(1): Fr(0)}
+    DEG = {Fr(1): 180, Fr(2, 3): 120, Fr(1, 2): 90, Fr(1, 3): 60, Fr(0): 0}
+
+    def run(fn, world, shapes, vertex, F_=2, **kw):
+        """world[k][f] = (angle code, the distance the criterion is about); shapes[code] = integer sides (a, b, c) of a triangle with that angle
+        at `vertex` of the (D, H, A) triplet; the side the criterion is about is scaled to the requested distance"""
+        K = len(world)
+        trip = [(10 * k, 10 * k + 1, 10 * k + 2) for k in range(K)]
+        rec = {"distance_calls": []}
+
+        def sides(code, dist_):
+            tri = shapes[code]      # {(0,1): .., (1,2): .., (0,2): ..}
+            ref = tri["ref"]
+            s_ = Fr(dist_) / tri[ref]
+            return {p_: v * s_ for p_, v in tri.items() if p_ != "ref"}
+
+        def compute_distances(ev, call):
+            pairs = ev.to_ten(ev.ex(call.args[1]))
+            rec["distance_calls"].append({k.arg: ev.ex(k.value) for k in call.keywords})
+            rec.setdefault("traj_arg", []).append(ev.ex(call.args[0]))
+            if pairs.ndim != 2 or pairs.shape[1] != 2:
+                raise PUnsupported("compute_distances is called with pairs of shape %s" % (pairs.shape,))
+            out = []
+            for f in range(F_):
+                for r in range(pairs.shape[0]):
+                    i, j = int(pairs.data[2 * r].const_value()), int(pairs.data[2 * r + 1].const_value())
+                    if i // 10 != j // 10:
+                        raise PUnsupported("distance between atoms of different triplets")
+                    out.append(rat(sides(*world[i // 10][f])[tuple(sorted((i % 10, j % 10)))]))
+            return Ten((F_, pairs.shape[0]), out)
+
+        def arccos(ev, call):
+            x = ev.to_ten(ev.ex(call.args[0]))
+            vals = []
+            for e in x.data:
+                c = e.const_value()
+                if c is None:
+                    raise PUnsupported("arccos of a symbolic value")
+                if c in ACOS:
+                    vals.append(PI * ACOS[c])
+                else:
+                    # not one of the designed angles (the law of cosines was applied to other sides): its numerical value, as a multiple of pi
+                    import math
+                    vals.append(PI * Fr(math.acos(max(-1.0, min(1.0, float(c)))) / math.pi).limit_denominator(10 ** 9))
+            return Ten(x.shape, vals)
+
+        def triplets(ev, call):
+            rec["triplet_kw"] = {k.arg: ev.ex(k.value) for k in call.keywords}
+            rec["triplet_args"] = [ev.ex(a_) for a_ in call.args]
+            return Ten((K, 3), [rat(x) for tr in trip for x in tr])
+        top = Obj(tag="top")
+        traj = Obj(topology=top, top=top, n_frames=F_, tag="traj")
+        ts = TenSym(models={"compute_distances": compute_distances, "np.arccos": arccos, "_get_bond_triplets": triplets}, funcs=funcs)
+        r = ts.run_fn(fn, traj=traj, **kw)
+        return ts, r, rec, trip, traj, top
+
+    def rows(t):
+        if not (hasattr(t, "shape") and len(t.shape) == 2 and t.shape[1] == 3):
+            return None
+        v = [x.const_value() for x in t.data]
+        return None if any(c is None for c in v) else sorted(tuple(int(c) for c in v[3 * k:3 * k + 3]) for k in range(t.shape[0]))
+    # ---- baker_hubbard: D-H...A angle (at H) > 120 degrees and r(H...A) < 0.25 nm in more than freq of the frames
+    at_H = {"180": {(0, 1): 3, (1, 2): 5, (0, 2): 8, "ref": (1, 2)}, "120": {(0, 1): 3, (1, 2): 5, (0, 2): 7, "ref": (1, 2)},
+            "90": {(0, 1): 3, (1, 2): 4, (0, 2): 5, "ref": (1, 2)}, "60": {(0, 1): 3, (1, 2): 8, (0, 2): 7, "ref": (1, 2)}}
+    w_bh = [[("180", "0.2"), ("180", "0.2")],        # a bond in both frames
+            [("120", "0.2"), ("120", "0.2")],        # angle equal to the cutoff: not a bond
+            [("180", "0.25"), ("180", "0.25")],      # distance equal to the cutoff: not a bond
+            [("180", "0.2"), ("180", "0.3")],        # a bond in one frame of two
+            [("90", "0.2"), ("90", "0.2")],          # bent
+            [("180", "0.2"), ("120", "0.2")],        # close in both frames, straight in one only
+            [("60", "0.1"), ("180", "0.24")]]        # one frame of two, the other sharply bent
+    for freq_txt, kw, freq in (("freq=1/2", {"freq": rat("1/2")}, Fr(1, 2)), ("default freq", {}, Fr(1, 10)), ("freq=0", {"freq": rat(0)}, Fr(0)),
+                               ("freq=3/10", {"freq": rat("3/10")}, Fr(3, 10)), ("freq=7/10", {"freq": rat("7/10")}, Fr(7, 10))):
+        desc = "baker_hubbard on the threshold world, %s" % freq_txt
+        try:
+            ts, r, rec, trip, traj, top = run(bh, w_bh, at_H, 1, **kw)
+        except PUnsupported as e:
+            ctx.undecided("C14-R1", bh, HB, "baker_hubbard", desc, "not evaluable: %s" % e)
             continue
-        di = const(call[0].args[3]) if len(call[0].args) > 3 else None
-        ai = const(call[0].args[4]) if len(call[0].args) > 4 else None
-        ok = di is not None and ai is not None and set(di) == dwant and _vertex(list(ai)) == vwant and sorted(ai) == [0, 1, 2]
-        ctx.decide(ok, "C14-R1", call[0], HB, q, "index tables select %s" % what, "distance %s, angle order %s" % (di, ai),
-                   "distance indices %s / angle indices %s give the distance between atoms %s and the angle at atom %s of the (D, H, A) triplet; documented: %s"
-                   % (di, ai, di, _vertex(list(ai)) if ai else None, what))
-        ctx.decide(dotted(call[0].args[2]) == "distance_cutoff", "C14-R1", call[0], HB, q, "pre-filter uses the final distance cutoff", "", "the pre-filter cutoff is `%s`" % src(call[0].args[2]))
+        want = sorted(trip[k] for k in range(len(w_bh)) if Fr(sum(1 for f in range(2) if int(w_bh[k][f][0]) > 120 and Fr(w_bh[k][f][1]) < Fr("0.25")), 2) > freq)
+        got = rows(r)
+        why = ""
+        if got != want:
+            names = {trip[k]: "triplet %d %s" % (k, w_bh[k]) for k in range(len(w_bh))}
+            why = "returned %s; by the documented criteria (angle at H > 120 deg, r(H...A) < 0.25 nm, in more than freq of the frames): %s" % (
+                [names.get(t_, t_) for t_ in (got or [])] if got is not None else "not an (n, 3) array", [names[t_] for t_ in want])
+        ctx.decide(got == want, "C14-R1", bh, HB, "baker_hubbard", desc, "%d of %d triplets" % (len(want), len(w_bh)), why)
+    try:
+        ts, r, rec, trip, traj, top = run(bh, w_bh, at_H, 1, exclude_water="EW", periodic="PER", sidechain_only="SC")
+        tk = dict(rec.get("triplet_kw") or {})
+        ta = rec.get("triplet_args") or []
+        ok = (ta[:1] == [top]) and (tk.get("exclude_water", ta[1] if len(ta) > 1 else None) == "EW") and (tk.get("sidechain_only", ta[2] if len(ta) > 2 else None) == "SC")
+        ctx.decide(ok, "C14-R1", bh, HB, "baker_hubbard", "exclude_water / sidechain_only reach _get_bond_triplets with the trajectory's topology", "", "_get_bond_triplets receives %s %s" % (ta, tk))
+        okp = bool(rec["distance_calls"]) and all(c.get("periodic") == "PER" for c in rec["distance_calls"]) and all(t_ is traj for t_ in rec.get("traj_arg", []))
+        ctx.decide(okp, "C14-R1", bh, HB, "baker_hubbard", "every distance is computed on the trajectory with the caller's `periodic`", "%d calls" % len(rec["distance_calls"]),
+                   "compute_distances receives periodic=%s" % [c.get("periodic") for c in rec["distance_calls"]])
+    except PUnsupported as e:
+        ctx.undecided("C14-R1", bh, HB, "baker_hubbard", "arguments passed on", "not evaluable: %s" % e)
+    # ---- wernet_nilsson: per frame, r(D...A) < 0.33 - 0.000044 * delta^2 with delta the angle at D between A and H, in degrees
+    at_D = {"0": {(0, 2): 3, (0, 1): 1, (1, 2): 2, "ref": (0, 2)}, "60": {(0, 2): 8, (0, 1): 3, (1, 2): 7, "ref": (0, 2)}, "90": {(0, 2): 4, (0, 1): 3, (1, 2): 5, "ref": (0, 2)}}
+    FW = 11      # eleven frames: a contact seen in one frame only has prevalence 1/11 < 0.1, the frequency Baker-Hubbard defaults to
+    w_wn = [[("0", "0.32")] + [("0", "0.33")] * (FW - 1),           # inside the cone in one frame, then on its rim (not a bond)
+            [("60", "0.16"), ("60", "0.1716")] + [("0", "0.4")] * (FW - 2),      # 0.33 - 0.000044 * 60^2 = 0.1716: inside, then on the rim
+            [("90", "0.1"), ("0", "0.34")] * 5 + [("90", "0.1")],     # cone closed at 90 degrees; beyond 0.33
+            [("0", "0.4"), ("0", "0.5")] * 5 + [("0", "0.4")],        # never within 0.33
+            [("60", "0.17"), ("0", "0.1")] * 5 + [("60", "0.17")]]
+    F_ = FW
+    try:
+        ts, r, rec, trip, traj, top = run(wn, w_wn, at_D, 0, F_=FW)
+        ok = isinstance(r, list) and len(r) == F_
+        why = "the result is not a list with one array per frame"
+        if ok:
+            why = ""
+            for f in range(F_):
+                want = sorted(trip[k] for k in range(len(w_wn)) if Fr(w_wn[k][f][1]) < Fr("0.33") - Fr("0.000044") * int(w_wn[k][f][0]) ** 2)
+                got = rows(r[f])
+                if got != want:
+                    ok = False
+                    why = why or "frame %d: returned %s; r(D...A) < 0.33 - 0.000044 delta^2 holds for %s (world: %s)" % (f, got, want, [w[f] for w in w_wn])
+        ctx.decide(ok, "C14-R1", wn, HB, "wernet_nilsson", "wernet_nilsson on the threshold world: per frame, the triplets inside the cone", "", why)
+    except PUnsupported as e:
+        ctx.undecided("C14-R1", wn, HB, "wernet_nilsson", "wernet_nilsson on the threshold world", "not evaluable: %s" % e)
+    try:
+        ts, r, rec, trip, traj, top = run(wn, w_wn, at_D, 0, F_=FW, exclude_water="EW", periodic="PER", sidechain_only="SC")
+        tk = dict(rec.get("triplet_kw") or {})
+        ta = rec.get("triplet_args") or []
+        ok = (ta[:1] == [top]) and (tk.get("exclude_water", ta[1] if len(ta) > 1 else None) == "EW") and (tk.get("sidechain_only", ta[2] if len(ta) > 2 else None) == "SC")
+        ctx.decide(ok, "C14-R1", wn, HB, "wernet_nilsson", "exclude_water / sidechain_only reach _get_bond_triplets with the trajectory's topology", "", "_get_bond_triplets receives %s %s" % (ta, tk))
+        okp = bool(rec["distance_calls"]) and all(c.get("periodic") == "PER" for c in rec["distance_calls"])
+        ctx.decide(okp, "C14-R1", wn, HB, "wernet_nilsson", "every distance is computed with the caller's `periodic`", "", "compute_distances receives periodic=%s" % [c.get("periodic") for c in rec["distance_calls"]])
+    except PUnsupported as e:
+        ctx.undecided("C14-R1", wn, HB, "wernet_nilsson", "arguments passed on", "not evaluable: %s" % e)
     c_, eff = effective_freq(ctx.py.mod(HB), "wernet_nilsson")
     ctx.decide(eff == 0.0, "C14-R1", c_ or wn, HB, "wernet_nilsson", "no frequency criterion: pre-filter threshold 0", "",
                "wernet_nilsson's pre-filter runs with freq=%r: the documented criterion is purely geometric, per frame" % (eff,))
-    # _compute_bounded_geometry: pre-filter is a weakening, cosine clipped
-    s = src(cg)
-    ctx.decide("np.mean(distances < distance_cutoff, axis=0)" in s and "mask = prevalence > freq" in s, "C14-R1", cg, HB, "_compute_bounded_geometry",
-               "pre-filter: mean(distances < cutoff) > freq", "", "the pre-filter is not the frequency of `distances < distance_cutoff` compared with `> freq`")
-    ctx.decide("np.clip(cosines, -1, 1, out=cosines)" in s and "np.arccos(cosines)" in s, "C14-R1", cg, HB, "_compute_bounded_geometry", "cosine clipped to [-1, 1] before arccos", "", "cosine is not clipped before arccos")
-    ctx.decide(re.sub(r"\s", "", "cosines = (a**2 + b**2 - c**2) / (2 * a * b)") in re.sub(r"\s", "", s), "C14-R1", cg, HB, "_compute_bounded_geometry", "law of cosines (a^2+b^2-c^2)/(2ab)", "", "law of cosines expression changed")
-    # wernet_nilsson constants and cone expression
-    consts = {dotted(n.targets[0]): const(n.value) for n in walk_no_nested(wn) if isinstance(n, ast.Assign) and isinstance(n.targets[0], ast.Name) and const(n.value) is not None}
-    ctx.decide(consts.get("distance_cutoff") == 0.33 and consts.get("angle_const") == 0.000044, "C14-R1", wn, HB, "wernet_nilsson", "cone constants 0.33 nm, 0.000044 nm/deg^2", "",
-               "cone constants are %s / %s" % (consts.get("distance_cutoff"), consts.get("angle_const")))
-    cut = [n for n in walk_no_nested(wn) if isinstance(n, ast.Assign) and dotted(n.targets[0]) == "cutoffs"]
-    ok = bool(cut) and re.sub(r"\s", "", src(cut[0].value)) in ("distance_cutoff-angle_const*(angles*180.0/np.pi)**2", "distance_cutoff-angle_const*np.degrees(angles)**2")
-    ctx.decide(ok, "C14-R1", cut[0] if cut else wn, HB, "wernet_nilsson", "cutoff = 0.33 - 0.000044 * delta[deg]^2", "", "cone cutoff expression is `%s`" % (src(cut[0].value) if cut else None))
-    pres = [n for n in walk_no_nested(wn) if isinstance(n, ast.Assign) and dotted(n.targets[0]) == "presence"]
-    ok = bool(pres) and "distances < cutoffs" in src(pres[0].value)
-    ctx.decide(ok, "C14-R1", pres[0] if pres else wn, HB, "wernet_nilsson", "distances < cutoffs", "", "cone criterion is `%s`" % (src(pres[0].value) if pres else None))
-    if pres and "angles < angle_cutoff" in src(pres[0].value):
+    # the cosine is clipped before arccos (rounding can push it past +-1: NaN angles would silently fail every comparison)
+    clipped = False
+    for n in ast.walk(cg):
+        if isinstance(n, ast.Call) and (call_name(n) or "").split(".")[-1] == "arccos" and n.args:
+            arg = n.args[0]
+            if isinstance(arg, ast.Call) and (call_name(arg) or "").split(".")[-1] == "clip":
+                clipped = True
+            elif isinstance(arg, ast.Name):
+                for m_ in ast.walk(cg):
+                    if isinstance(m_, ast.Call) and (call_name(m_) or "").split(".")[-1] == "clip" and m_.args and isinstance(m_.args[0], ast.Name) and m_.args[0].id == arg.id and \
+                            [const(x) for x in m_.args[1:3]] == [-1, 1] and (any(k.arg == "out" and isinstance(k.value, ast.Name) and k.value.id == arg.id for k in m_.keywords) or True):
+                        clipped = True
+    ctx.decide(clipped, "C14-R1", cg, HB, "_compute_bounded_geometry", "cosine clipped to [-1, 1] before arccos", "", "the cosine is not clipped before arccos")
+    pres = [n for n in walk_no_nested(wn) if isinstance(n, ast.Compare) and "angle_cutoff" in src(n)]
+    if pres:
         ctx.note("C14-R1", pres[0], HB, "wernet_nilsson", "`angles < angle_cutoff`", "compares radians with the literal 45 (degrees): always true, no effect on the documented cone criterion")
 
 
